@@ -26,7 +26,7 @@ type bbProbe struct {
 	Split    int    `json:"split,omitempty"`
 }
 
-var bbFrontends = []string{"sasl", "sasl-split", "sasl-split", "sasl-split", "basic-auth", "api-authenticate", "ldap", "cli"}
+var bbFrontends = []string{"sasl", "sasl-split", "sasl-split", "sasl-split", "basic-auth", "api-authenticate", "ldap", "cli", "https-basic-auth", "ldaps"}
 
 func genBBPassword(t *rapid.T) string {
 	switch rapid.IntRange(0, 9).Draw(t, "pwcls") {
@@ -73,7 +73,8 @@ func genBBCase(t *rapid.T) bbCase {
 		}
 	}
 	c.Users = us
-	c.Listeners = rapid.SampledFrom([][]string{{"sasl", "http", "ldap"}, {"sasl", "http", "ldap"}, {"sasl"}, {"http"}, {"ldap"}, {"sasl", "http"}, {"http", "ldap"}, {"sasl", "ldap"}}).Draw(t, "listeners")
+	c.Listeners = rapid.SampledFrom([][]string{{"sasl", "http", "ldap"}, {"sasl", "http", "ldap"}, {"sasl"}, {"http"}, {"ldap"}, {"sasl", "http"}, {"http", "ldap"}, {"sasl", "ldap"},
+		{"sasl", "http", "ldap", "https", "ldaps"}, {"https", "ldaps"}, {"sasl", "https"}, {"http", "https", "ldap", "ldaps"}}).Draw(t, "listeners")
 	for i, n := 0, rapid.IntRange(3, 14).Draw(t, "nprobes"); i < n; i++ {
 		u := c.Users[rapid.IntRange(0, len(c.Users)-1).Draw(t, "u")]
 		p := bbProbe{User: u.Name, PW: u.PW, Kind: "right", Frontend: rapid.SampledFrom(bbFrontends).Draw(t, "frontend"),
@@ -137,12 +138,16 @@ func doProbe(a *agent, cfgFile string, listeners []string, p bbProbe) (fe, name,
 		fe = "cli"
 	case fe == "ldap" && !has(listeners, "ldap"):
 		fe = "cli"
+	case fe == "https-basic-auth" && !has(listeners, "https"):
+		fe = "cli"
+	case fe == "ldaps" && !has(listeners, "ldaps"):
+		fe = "cli"
 	}
 	if fe == "api-authenticate" && (!utf8.ValidString(p.PW) || !utf8.ValidString(p.User)) {
 		vlib.Excluded("JSON cannot carry non-UTF-8 bytes")
 		fe = "basic-auth"
 	}
-	if fe == "basic-auth" && strings.ContainsAny(p.User, ":") {
+	if (fe == "basic-auth" || fe == "https-basic-auth") && strings.ContainsAny(p.User, ":") {
 		fe = "cli"
 	}
 	if fe == "cli" && (strings.ContainsRune(p.PW, 0) || strings.HasPrefix(p.PW, "-") || strings.HasPrefix(p.User, "-") || strings.ContainsRune(p.User, 0)) {
@@ -151,7 +156,7 @@ func doProbe(a *agent, cfgFile string, listeners []string, p bbProbe) (fe, name,
 		return
 	}
 	name, storeName = p.User, p.User
-	if fe == "ldap" {
+	if fe == "ldap" || fe == "ldaps" {
 		name = p.User + p.Realm
 		storeName, _, _ = strings.Cut(name, "@")
 	}
@@ -179,6 +184,13 @@ func doProbe(a *agent, cfgFile string, listeners []string, p bbProbe) (fe, name,
 		got = st == 200
 	case "ldap":
 		got, terr = a.ldapBind(name, p.PW)
+	case "https-basic-auth":
+		var st int
+		st, terr = a.basicAuthTLS(name, p.PW)
+		got = st == 200
+		detail = fmt.Sprint(st)
+	case "ldaps":
+		got, terr = a.ldapsBind(name, p.PW)
 	case "cli":
 		st, out := cli(cfgFile, nil, "authenticate", name, p.PW)
 		got, detail = st == 0, fmt.Sprintf("exit %d: %s", st, strings.TrimSpace(out))
@@ -257,7 +269,7 @@ func TestC04Binary(t *testing.T) {
 			vlib.Class("bb-frontend:" + fe)
 		}
 		allFrontends := func(user, pw, kind, phase string) {
-			for _, fe := range []string{"sasl", "sasl-split", "basic-auth", "api-authenticate", "ldap", "cli"} {
+			for _, fe := range []string{"sasl", "sasl-split", "basic-auth", "api-authenticate", "ldap", "cli", "https-basic-auth", "ldaps"} {
 				judge(-1, bbProbe{User: user, PW: pw, Kind: kind, Frontend: fe, Split: 1}, phase)
 			}
 		}
